@@ -261,6 +261,8 @@ class Facts:
 
     def fn(self, path):
         cn = path.split("::", 1)[0]
+        if cn not in self.files:
+            return None
         c = self.crate(cn)
         return c.by_path.get(path)
 
